@@ -33,16 +33,79 @@ def frontStep (w : World) (g : Nat) (gd : Guard) : World :=
   | .ok none => w
   | .error f => w.fail s!"guard peek: {f}"
 
+theorem guardSignalF_zero (fwd : Bool) (w : World) (g : Nat) :
+    guardSignalF fwd 0 w g = w.fail "observer chain too deep (cycle?)" := rfl
+
 theorem guardSignal_zero (w : World) (g : Nat) : guardSignal 0 w g = w.fail "observer chain too deep (cycle?)" := rfl
 
-/-- `guardSignal` = front step on the guard's own queue, then a plain signal of every observer -/
+/-- what a signal does at the guard itself: `cmb_resourceguard_signal` called directly (`fwd = false`) looks at the front
+    waiter; a signal forwarded from an observed guard (`fwd = true`) to a guard with a handler (a condition's guard) is
+    `cmb_condition_signal` — every waiter is evaluated —, to any other guard again the front step -/
+def ownStep (fwd : Bool) (w : World) (g : Nat) (gd : Guard) : World :=
+  if fwd && hasHandler w g then (condSignal w g).1 else frontStep w g gd
+
+/-- the delivery of a forwarded signal to the observer `o` (the body of the loop of `forward_signal`) -/
+abbrev fwdSignal (fuel : Nat) (w : World) (o : Nat) : World := guardSignalF true fuel w o
+
+theorem guardSignalF_succ (fwd : Bool) (fuel : Nat) (w : World) (g : Nat) :
+    guardSignalF fwd (fuel + 1) w g =
+      match w.guards[g]? with
+      | none => w
+      | some gd => gd.observers.foldl (fun w o => fwdSignal fuel w o) (ownStep fwd w g gd) := by
+  simp only [guardSignalF, ownStep, frontStep, fwdSignal]
+  rfl
+
+/-- `guardSignal` = front step on the guard's own queue, then the forwarded signal to every observer -/
 theorem guardSignal_succ (fuel : Nat) (w : World) (g : Nat) :
     guardSignal (fuel + 1) w g =
       match w.guards[g]? with
       | none => w
-      | some gd => gd.observers.foldl (fun w o => guardSignal fuel w o) (frontStep w g gd) := by
-  simp only [guardSignal, frontStep]
-  rfl
+      | some gd => gd.observers.foldl (fun w o => fwdSignal fuel w o) (frontStep w g gd) := by
+  show guardSignalF false (fuel + 1) w g = _
+  rw [guardSignalF_succ]
+  simp [ownStep]
+
+theorem ownStep_direct (w : World) (g : Nat) (gd : Guard) : ownStep false w g gd = frontStep w g gd := by
+  simp [ownStep]
+
+theorem ownStep_handler {w : World} {g : Nat} (h : hasHandler w g = true) (gd : Guard) :
+    ownStep true w g gd = (condSignal w g).1 := by
+  simp [ownStep, h]
+
+theorem ownStep_plain {w : World} {g : Nat} (h : hasHandler w g = false) (gd : Guard) :
+    ownStep true w g gd = frontStep w g gd := by
+  simp [ownStep, h]
+
+/-- a forwarded signal reaches an observer without a handler as a plain `cmb_resourceguard_signal` -/
+theorem fwdSignal_plain {w : World} {o : Nat} (h : hasHandler w o = false) (fuel : Nat) :
+    fwdSignal fuel w o = guardSignal fuel w o := by
+  cases fuel with
+  | zero => rfl
+  | succ n =>
+    show guardSignalF true (n + 1) w o = guardSignalF false (n + 1) w o
+    rw [guardSignalF_succ, guardSignalF_succ]
+    cases hg : w.guards[o]? with
+    | none => rfl
+    | some gd => simp only [ownStep_plain h, ownStep_direct]
+
+/-- a forwarded signal reaches an observer with a handler (a condition) as `cmb_condition_signal`, and travels on -/
+theorem fwdSignal_handler {w : World} {o : Nat} (h : hasHandler w o = true) (fuel : Nat) :
+    fwdSignal (fuel + 1) w o =
+      match w.guards[o]? with
+      | none => w
+      | some od => od.observers.foldl (fun w o' => fwdSignal fuel w o') (condSignal w o).1 := by
+  show guardSignalF true (fuel + 1) w o = _
+  rw [guardSignalF_succ]
+  cases hg : w.guards[o]? with
+  | none => rfl
+  | some gd => simp only [ownStep_handler h]
+
+theorem hasHandler_iff {w : World} {g : Nat} : hasHandler w g = true ↔ ∃ c : Nat, w.conds[c]? = some g := by
+  unfold hasHandler
+  rw [Array.contains_iff_mem, Array.mem_iff_getElem?]
+
+theorem hasHandler_congr {w w' : World} (h : w'.conds = w.conds) (g : Nat) : hasHandler w' g = hasHandler w g := by
+  unfold hasHandler; rw [h]
 
 /-- a grant: the entry leaves the queue and its wake-up (aRes, SUCCESS) is scheduled at the current time
     with the waiter's current priority -/
@@ -85,13 +148,20 @@ theorem frontStep_spec (w : World) (g : Nat) (gd : Guard) (hwf : GWF gd.q) :
 /-- every waiting list is a well-formed hashheap -/
 def AllGWF (w : World) : Prop := ∀ (g : Nat) (gd : Guard), w.guards[g]? = some gd → GWF gd.q
 
-/-- a grant event produced between `w` and `w'`: an (aRes, SUCCESS) wake-up at the current time, with the waiter's
-    priority, for a key that was waiting on some guard whose demand held, and is no longer queued there -/
-def IsGrantEv (w w' : World) (e : HTag) : Prop :=
+/-- a wake-up with action `a` produced by a signal between `w` and `w'`: an (a, SUCCESS) event at the current time, with
+    the waiter's priority, for a key that was waiting on some guard, whose demand held, and that is no longer queued
+    there; a condition wake-up (`a = aCond`) only at a guard with a handler (a condition's guard) -/
+def IsWakeEv (a : Nat) (w w' : World) (e : HTag) : Prop :=
   ∃ (g : Nat) (gd gd' : Guard), w.guards[g]? = some gd ∧ w'.guards[g]? = some gd' ∧
     e.item.b ∈ keys (abs gd.q) ∧ e.item.b ∉ keys (abs gd'.q) ∧
-    evalDemand w (demandOf gd e.item.b) = true ∧
-    e = mkEv e.key aRes e.item.b sigSuccess w.now (w.proc (e.item.b - 1)).prio ∧ w.ev.counter < e.key
+    evalDemand w (demandOf gd e.item.b) = true ∧ (a = aCond → hasHandler w g = true) ∧
+    e = mkEv e.key a e.item.b sigSuccess w.now (w.proc (e.item.b - 1)).prio ∧ w.ev.counter < e.key
+
+/-- a grant: the (aRes, SUCCESS) wake-up of a front step -/
+abbrev IsGrantEv (w w' : World) (e : HTag) : Prop := IsWakeEv aRes w w' e
+
+/-- a condition wake-up: the (aCond, SUCCESS) wake-up of a satisfied waiter of an observing condition -/
+abbrev IsCondEv (w w' : World) (e : HTag) : Prop := IsWakeEv aCond w w' e
 
 /-- what `cmb_resourceguard_signal` (front step + observers, recursively) can do to the world -/
 structure SigRel (w w' : World) : Prop where
@@ -115,9 +185,10 @@ structure SigRel (w w' : World) : Prop where
   executed : w'.ev.executed = w.ev.executed
   cancelled : w'.ev.cancelled = w.ev.cancelled
   current : w'.ev.current = w.ev.current
-  /-- pending events are only added, and every added one is a grant -/
+  /-- pending events are only added, and every added one is a grant (front step of the signalled guard or of a plain
+      observer) or the condition wake-up of a satisfied waiter of an observing condition -/
   pending : ∃ new, w'.ev.pending = new ++ w.ev.pending ∧ w'.ev.counter = w.ev.counter + new.length ∧
-    ∀ e ∈ new, IsGrantEv w w' e
+    ∀ e ∈ new, IsGrantEv w w' e ∨ IsCondEv w w' e
   evinv : EvInv w.ev → EvInv w'.ev
   fault : w'.fault = none → w.fault = none
   wf : AllGWF w'
@@ -185,9 +256,8 @@ theorem SigRel.trans {w w1 w2 : World} (h1 : SigRel w w1) (h2 : SigRel w1 w2) : 
     obtain ⟨n1, hp1, hc1, hg1⟩ := h1.pending
     obtain ⟨n2, hp2, hc2, hg2⟩ := h2.pending
     refine ⟨n2 ++ n1, by rw [hp2, hp1, List.append_assoc], by rw [hc2, hc1, List.length_append]; omega, ?_⟩
-    intro e he
-    rcases List.mem_append.1 he with he | he
-    · obtain ⟨g, gd1, gd2, hgd1, hgd2, hin, hout, hdem, heq, hctr⟩ := hg2 e he
+    have second : ∀ (a : Nat) (e : HTag), IsWakeEv a w1 w2 e → IsWakeEv a w w2 e := by
+      intro a e ⟨g, gd1, gd2, hgd1, hgd2, hin, hout, hdem, hh, heq, hctr⟩
       -- the guard existed before the first half, with a larger queue
       have hsz : g < w.guards.size := by
         have : g < w1.guards.size := by
@@ -199,12 +269,18 @@ theorem SigRel.trans {w w1 w2 : World} (h1 : SigRel w w1) (h2 : SigRel w1 w2) : 
       obtain ⟨gd1', hgd1', _, hd1, _, _, hs1⟩ := h1.guards g _ hgd
       have : gd1' = gd1 := by rw [hgd1] at hgd1'; exact (Option.some.inj hgd1').symm
       subst this
-      refine ⟨g, _, gd2, hgd, hgd2, keys_subset_of_subset hs1 hin, hout, ?_, ?_, by omega⟩
+      refine ⟨g, _, gd2, hgd, hgd2, keys_subset_of_subset hs1 hin, hout, ?_, ?_, ?_, by omega⟩
       · rw [← h1.evalDemand]; unfold demandOf at hdem ⊢; rw [← hd1]; exact hdem
+      · intro ha; rw [← hasHandler_congr h1.conds]; exact hh ha
       · rw [heq]; simp only [mkEv]; rw [h1.now, h1.proc]
-    · obtain ⟨g, gd, gd1, hgd, hgd1, hin, hout, hdem, heq, hctr⟩ := hg1 e he
+    have first : ∀ (a : Nat) (e : HTag), IsWakeEv a w w1 e → IsWakeEv a w w2 e := by
+      intro a e ⟨g, gd, gd1, hgd, hgd1, hin, hout, hdem, hh, heq, hctr⟩
       obtain ⟨gd2, hgd2, _, _, _, _, hs2⟩ := h2.guards g gd1 hgd1
-      exact ⟨g, gd, gd2, hgd, hgd2, hin, fun hk => hout (keys_subset_of_subset hs2 hk), hdem, heq, hctr⟩
+      exact ⟨g, gd, gd2, hgd, hgd2, hin, fun hk => hout (keys_subset_of_subset hs2 hk), hdem, hh, heq, hctr⟩
+    intro e he
+    rcases List.mem_append.1 he with he | he
+    · exact (hg2 e he).imp (second _ e) (second _ e)
+    · exact (hg1 e he).imp (first _ e) (first _ e)
   evinv := fun h => h2.evinv (h1.evinv h)
   fault := fun h => h1.fault (h2.fault h)
   wf := h2.wf
@@ -258,7 +334,7 @@ theorem frontStep_rel {w : World} {g : Nat} {gd : Guard} (hg : w.guards[g]? = so
           have := hperm.map (·.key)
           simpa [keys, norm] using this
         have hkout : (gd.q.tag 1).key ∉ keys (abs q') := (List.nodup_cons.1 (hkp.nodup_iff.1 hnd)).1
-        refine ⟨g, gd, { gd with q := q' }, hg, ?_, hkin, hkout, hd, rfl, ?_⟩
+        refine Or.inl ⟨g, gd, { gd with q := q' }, hg, ?_, hkin, hkout, hd, fun h => absurd h (by decide), rfl, ?_⟩
         · simp [grant, setGuardQ_guards_get, hg]
         · simp [mkEv]
       · intro hi
@@ -283,30 +359,14 @@ theorem foldl_sigRel {α : Type} (f : World → α → World) (hf : ∀ w a, All
     have h1 := hf w a h
     exact h1.trans (ih _ h1.wf)
 
-/-- the footprint of `cmb_resourceguard_signal`, observers included -/
-theorem guardSignal_rel : ∀ (fuel : Nat) (w : World) (g : Nat), AllGWF w → SigRel w (guardSignal fuel w g) := by
-  intro fuel
-  induction fuel with
-  | zero =>
-    intro w g h
-    rw [guardSignal_zero]
-    refine { evWaiters := by simp, procs := by simp, res := by simp, pools := by simp, bufs := by simp,
-             oqs := by simp, pqs := by simp, conds := by simp, flags := by simp, gvars := by simp, log := by simp,
-             dispatched := by simp, gsize := by simp, guards := ?_, evnow := by simp, executed := by simp,
-             cancelled := by simp, current := by simp, pending := ?_, evinv := by simp, fault := ?_, wf := ?_ }
-    · intro g gd hg; exact ⟨gd, by simpa using hg, rfl, rfl, rfl, h g gd hg, fun _ hx => hx⟩
-    · exact ⟨[], by simp, by simp, by simp⟩
-    · intro hf; exact (fail_fault_none hf).elim
-    · intro g gd hg; exact h g gd (by simpa using hg)
-  | succ fuel ih =>
-    intro w g h
-    rw [guardSignal_succ]
-    cases hg : w.guards[g]? with
-    | none => exact SigRel.refl h
-    | some gd =>
-      have h1 := frontStep_rel hg h
-      exact h1.trans (foldl_sigRel _ (fun w o hw => ih w o hw) _ _ h1.wf)
-
-theorem signal_rel (w : World) (g : Nat) (h : AllGWF w) : SigRel w (signal w g) := guardSignal_rel 8 w g h
+theorem SigRel.fail {w : World} (h : AllGWF w) (m : String) : SigRel w (w.fail m) := by
+  refine { evWaiters := by simp, procs := by simp, res := by simp, pools := by simp, bufs := by simp,
+           oqs := by simp, pqs := by simp, conds := by simp, flags := by simp, gvars := by simp, log := by simp,
+           dispatched := by simp, gsize := by simp, guards := ?_, evnow := by simp, executed := by simp,
+           cancelled := by simp, current := by simp, pending := ?_, evinv := by simp, fault := ?_, wf := ?_ }
+  · intro g gd hg; exact ⟨gd, by simpa using hg, rfl, rfl, rfl, h g gd hg, fun _ hx => hx⟩
+  · exact ⟨[], by simp, by simp, by simp⟩
+  · intro hf; exact (fail_fault_none hf).elim
+  · intro g gd hg; exact h g gd (by simpa using hg)
 
 end CimbaModel.Sim.S3
